@@ -1,6 +1,6 @@
 (* C05 — property theorems (statements only; proofs live in Proofs*.v). *)
 From Coq Require Import List ZArith QArith Bool Sorting.Permutation.
-Require Import QV.C05.Model QV.C05.Spec QV.C05.Proofs QV.C05.Proofs2 QV.C05.Proofs3 QV.C05.Proofs4 QV.C05.Proofs5.
+Require Import QV.C05.Model QV.C05.Spec QV.C05.Proofs QV.C05.Proofs2 QV.C05.Proofs3 QV.C05.Proofs4 QV.C05.Proofs5 QV.C05.Ctors QV.C05.Proofs6.
 Import ListNotations.
 Open Scope Z_scope.
 
@@ -75,3 +75,39 @@ Example C05_guards_satisfiable :
   (exists l, compile w_good [13%N; 14%N; 17%N] [TOffset [(1%N, 1%Q)]; TLinear [1%N] [3%N] [[2%Q]]] = Some l /\ lok l).
 Proof. split; [vm_compute; reflexivity|]. split; [vm_compute; reflexivity|]. eexists. split; [vm_compute; reflexivity|].
   cbn. repeat split; try discriminate; auto with zarith. Qed.
+
+(* ---- convenience constructors (Ctors.v models what each does to the template) denote the same pulse as the explicit
+        nesting they replace: same duration, same windows (multiset), same voltages at every time; for every global
+        transformation G, nothing collapsed ---- *)
+(* SequencePT.concatenate / `@` / with_appended (unnamed measurement-free sequences are inlined) *)
+Theorem C05_ctor_concatenate : forall i args G,
+  same_prog (compile (ctor_concat i args) [] G) (compile (explicit_concat i args) [] G).
+Proof. exact ctor_concat_same. Qed.
+Print Assumptions C05_ctor_concatenate.
+
+(* pad_to: self when the pad is empty, else the concatenation with the constant pad; and an explicit sequence with a
+   pad of duration <= 0 denotes the template itself *)
+Theorem C05_ctor_pad_to : forall i j u p d final G,
+  same_prog (compile (ctor_pad i j u p d final) [] G) (compile (if d =? 0 then p else explicit_pad i j p d final) [] G).
+Proof. exact ctor_pad_same. Qed.
+Print Assumptions C05_ctor_pad_to.
+Theorem C05_ctor_pad_zero : forall i j p d final G, d <= 0 ->
+  same_prog (compile p [] G) (compile (explicit_pad i j p d final) [] G).
+Proof. exact ctor_pad_zero. Qed.
+Print Assumptions C05_ctor_pad_zero.
+
+(* with_time_reversal twice (the unnamed first reversal is unwrapped) *)
+Theorem C05_ctor_double_reversal : forall i j p G, same_prog (compile p [] G) (compile (PRev i (PRev j p)) [] G).
+Proof. exact ctor_rev2_same. Qed.
+Print Assumptions C05_ctor_double_reversal.
+
+(* chained with_parallel_channels (value dicts merged): same pulse when the two dicts overwrite different channels;
+   refuted otherwise (the explicit nesting lets the INNER value win: finding parallel_channel_before_global_transformation) *)
+Theorem C05_ctor_parallel_channels : forall i j values old x G, disjointb (map fst values) (map fst old) = true ->
+  same_prog (compile (PPar i (values ++ old) x) [] G) (compile (PPar i values (PPar j old x)) [] G).
+Proof. exact ctor_par_same. Qed.
+Print Assumptions C05_ctor_parallel_channels.
+Theorem C05_ctor_parallel_channels_refuted : exists i j values old x,
+  ~ same_prog (compile (PPar i (values ++ old) x) [] []) (compile (PPar i values (PPar j old x)) [] []).
+Proof. exact ctor_par_refuted. Qed.
+Print Assumptions C05_ctor_parallel_channels_refuted.
